@@ -1390,6 +1390,9 @@ fn pct(input: Span) -> IResult<Span, Positioned<AggregateFunction>> {
     with_pos(
         alt((tag("pct"), tag("percentile"), tag("p")))
             .precedes(with_pos(digit1))
+            // `p90 - p10 as spread` is an expression over the columns a percentile produces by
+            // default, not a percentile missing its argument
+            .terminated(peek(tag("(")))
             .and(req_single_arg("the value to compute the percentile of"))
             .map(|(pct_pos, column)| match pct_pos.value.parse::<f64>() {
                 Ok(pct) if pct > 0.0 && pct < 100.0 => AggregateFunction::Percentile {
